@@ -50,17 +50,20 @@ var signalIDs = []string{"CS:BTC-USD", "CS:ETH-USD", "CS:BAND-USD", "CS:ATOM-USD
 
 // gen generates blocks statefully: every choice is resolved against replica A's committed state.
 type gen struct {
-	e     *Env
-	rng   *rand.Rand
-	step  int
-	deN   int
-	used  map[string]bool // signers used in the block under construction
-	govID uint64          // last proposal submitted by the generator
-	partial bool          // answer open requests / signings only partly (the block before the export)
+	e       *Env
+	rng     *rand.Rand
+	step    int
+	deN     int
+	used    map[string]bool // signers used in the block under construction
+	govIDs  []uint64        // proposals submitted by the generator
+	partial bool            // answer open requests / signings only partly (the block before the export)
 	// profile of the script (inputs): whether tunnels are created, and whether a new signing group is proposed
 	// through MsgTransitionGroup (which starts a DKG that nobody completes)
-	tunnels, dkg bool
-	Kinds map[string]int // message kinds generated (stats)
+	// (which starts a DKG that nobody completes), whether a transition to the second genesis group is proposed,
+	// and whether governance lowers tss MaxDESize below the length of existing nonce queues
+	tunnels, dkg, transition, delimit bool
+	n                                 int            // number of blocks before the export
+	Kinds                             map[string]int // message kinds generated (stats)
 }
 
 func newGen(e *Env, rng *rand.Rand) *gen {
@@ -113,10 +116,21 @@ func (g *gen) nextBlock(stage string) (dt int64, acts []action) {
 		safely(func() { add(g.bootstrap(ctx)...) })
 		return dt, acts
 	}
-	if g.step == 2 {
+	if g.step == 2 && (g.dkg || g.transition) {
 		// a group transition is scheduled through governance early; its execution time is drawn so that some
 		// scripts export while the transition is waiting and others after it has executed
 		safely(func() { add(g.transitionProposal(ctx, newTime)...) })
+	}
+	if g.dkg && g.step == g.n-5 {
+		// a second proposal late enough that its DKG is still in its first round when the state is exported
+		safely(func() { add(g.transitionProposal(ctx, newTime)...) })
+	}
+	if g.delimit && g.step == g.n-8 {
+		safely(func() {
+			p := g.e.W.App.TSSKeeper.GetParams(ctx)
+			p.MaxDESize = 1
+			add(g.proposalBy(ctx, g.e.W.Accts[8], true, tsstypes.NewMsgUpdateParams(govAuthority(), p))...)
+		})
 	}
 	g.partial = stage == stagePre1
 	// housekeeping that keeps the flows moving (each only sometimes, so that time-outs happen too)
@@ -145,8 +159,14 @@ func (g *gen) nextBlock(stage string) (dt int64, acts []action) {
 
 // transitionProposal submits MsgForceTransitionGroup (to the second genesis group) as a proposal.
 func (g *gen) transitionProposal(ctx sdk.Context, newTime time.Time) []action {
-	off := []int{12, 25, 60, 200, 600}[g.pick(5)]
+	off := []int{25, 300, 500, 700, 900}[g.pick(5)]
 	execTime := newTime.Add(time.Duration(off) * time.Second)
+	if g.dkg {
+		// a new group is proposed: its DKG starts when the proposal passes and nobody takes part in it
+		w := g.e.W
+		return g.proposalBy(ctx, w.Accts[9], g.step > 2, bandtsstypes.NewMsgTransitionGroup(
+			[]string{w.Accts[4].Addr.String(), w.Accts[5].Addr.String(), w.Accts[6].Addr.String()}, 2, execTime, govAuthority()))
+	}
 	return g.proposalBy(ctx, g.e.W.Accts[9], false, bandtsstypes.NewMsgForceTransitionGroup(2, execTime, govAuthority()))
 }
 
@@ -369,20 +389,23 @@ func (g *gen) prices(ctx sdk.Context, newTime time.Time) (acts []action) {
 	return acts
 }
 
-// govVotes: validators' delegator accounts vote yes on the generator's open proposal.
+// govVotes: validators' delegator accounts vote yes on every proposal of the generator that is open.
 func (g *gen) govVotes(ctx sdk.Context) (acts []action) {
-	if g.govID == 0 {
-		return nil
+	lo := 0
+	if len(g.govIDs) > 4 {
+		lo = len(g.govIDs) - 4
 	}
-	p, err := g.e.W.App.GovKeeper.Proposals.Get(ctx, g.govID)
-	if err != nil || p.Status != govv1.StatusVotingPeriod {
-		return nil
-	}
-	for _, v := range g.e.W.Vals {
-		if has, _ := g.e.W.App.GovKeeper.Votes.Has(ctx, collectionsPair(g.govID, v.Addr)); has {
+	for _, id := range g.govIDs[lo:] {
+		p, err := g.e.W.App.GovKeeper.Proposals.Get(ctx, id)
+		if err != nil || p.Status != govv1.StatusVotingPeriod {
 			continue
 		}
-		acts = append(acts, action{kind: "govvote", signer: v, msgs: []sdk.Msg{govv1.NewMsgVote(v.Addr, g.govID, govv1.OptionYes, "")}, fee: uband(500)})
+		for _, v := range g.e.W.Vals {
+			if has, _ := g.e.W.App.GovKeeper.Votes.Has(ctx, collectionsPair(id, v.Addr)); has {
+				continue
+			}
+			acts = append(acts, action{kind: "govvote", signer: v, msgs: []sdk.Msg{govv1.NewMsgVote(v.Addr, id, govv1.OptionYes, "")}, fee: uband(500)})
+		}
 	}
 	return acts
 }
@@ -402,7 +425,7 @@ func (g *gen) proposalBy(ctx sdk.Context, who world.Account, expedited bool, msg
 	}
 	next, err := g.e.W.App.GovKeeper.ProposalID.Peek(ctx)
 	if err == nil {
-		g.govID = next
+		g.govIDs = append(g.govIDs, next)
 	}
 	return []action{{kind: "proposal", signer: who, msgs: []sdk.Msg{m}, fee: uband(1000)}}
 }
@@ -491,6 +514,9 @@ func (g *gen) randomAction(ctx sdk.Context, newTime time.Time) []action {
 				return one("forceTransitionNonAuth", a, bandtsstypes.NewMsgForceTransitionGroup(2, execTime, a.Addr.String()))
 			}
 			return one("transitionNonAuth", a, bandtsstypes.NewMsgTransitionGroup([]string{w.Accts[4].Addr.String(), w.Accts[5].Addr.String()}, 1, execTime, a.Addr.String()))
+		}
+		if !g.transition && !g.dkg {
+			return nil
 		}
 		cur := app.BandtssKeeper.GetCurrentGroup(ctx).GroupID
 		target := tss.GroupID(2)
@@ -642,7 +668,7 @@ func (g *gen) randomAction(ctx sdk.Context, newTime time.Time) []action {
 			p := app.TSSKeeper.GetParams(ctx)
 			p.SigningPeriod = uint64(1 + g.pick(4))
 			p.MaxSigningAttempt = uint64(g.pick(4))
-			p.MaxDESize = uint64(1 + g.pick(50))
+			// MaxDESize stays: lowering it below existing queues is the "delimit" profile's own step
 			return g.proposal(ctx, tsstypes.NewMsgUpdateParams(au, p))
 		case 2:
 			p := app.BandtssKeeper.GetParams(ctx)
@@ -703,7 +729,6 @@ func (g *gen) allAccounts() []world.Account {
 	out = append(out, g.e.W.Owner)
 	return out
 }
-
 
 func collectionsPair(id uint64, a sdk.AccAddress) collections.Pair[uint64, sdk.AccAddress] {
 	return collections.Join(id, a)
